@@ -227,6 +227,67 @@ class C13(Prop):
                 self.bad.append(("equal forms differ in ==/hash/repr/signature", dict(kind="form-eq", a=repr(F1)[:300])))
             if F1 == F3 and (repr(F1) != repr(F3) or F1.signature() != F3.signature()):
                 self.bad.append(("forms with different metadata are == but differ in repr/signature", dict(kind="form-md", a=repr(F1)[:300])))
+        # -- histories: fresh (never hashed) objects compared first; metadata written in another key order; pickling must not touch other objects
+        nhist = 0
+        for k in range(n):
+            G = gen.Gen(rng, gdim=2, math=False, compound=False, reuse=0.5, base_elements=True)
+            def fresh_items(m):
+                return [G.expr((), (), rng.randint(0, 1)) for _ in range(m)]
+            items = fresh_items(4)
+            m1 = rng.randint(1, 3)
+            build = lambda its: ufl.as_vector(list(its)) if rng.random() < 2 else None
+            # two freshly built, never hashed list tensors, one a proper prefix of the other (also nested one level)
+            for nested in (False, True):
+                def mk(its):
+                    v = ufl.classes.ListTensor(*[ufl.as_ufl(x) for x in its])
+                    return ufl.classes.ListTensor(v, v) if nested else v
+                try:
+                    A, B = mk(items[:m1]), mk(items[:m1 + 1])
+                except Exception:
+                    continue
+                if nested:
+                    A = ufl.classes.ListTensor(ufl.classes.ListTensor(*items[:m1]), ufl.classes.ListTensor(*items[:m1]))
+                    B = ufl.classes.ListTensor(ufl.classes.ListTensor(*items[:m1 + 1]), ufl.classes.ListTensor(*items[:m1 + 1]))
+                shA, shB = A.ufl_shape, B.ufl_shape
+                nhist += 1
+                first = bool(A == B) if k % 2 == 0 else bool(B == A)
+                if first or bool(A == B) or bool(B == A):
+                    self.bad.append(("two freshly built expressions of different shape compare equal before either was hashed", dict(kind="fresh-eq", a=repr(A)[:200], b=repr(B)[:200])))
+                if A.ufl_shape != shA or B.ufl_shape != shB or len(A.ufl_operands) == len(B.ufl_operands) and not nested:
+                    self.bad.append(("comparing two fresh expressions changed the operands / shape of one of them", dict(kind="fresh-impure", a=repr(A)[:200])))
+            # metadata with the same items written in another order
+            a = G.expr((), (), 1)
+            kv = [("quadrature_degree", rng.randint(1, 4)), ("quadrature_rule", "default"), ("optimize", True)][:rng.randint(2, 3)]
+            md1, md2 = dict(kv), dict(reversed(kv))
+            F1, F2 = a * ufl.dx(domain=G.mesh, metadata=md1), a * ufl.dx(domain=G.mesh, metadata=md2)
+            I1, I2 = F1.integrals()[0], F2.integrals()[0]
+            nhist += 1
+            if I1 == I2 and hash(I1) != hash(I2):
+                self.bad.append(("two integrals are == but have different hashes (metadata with the same items in another order)", dict(kind="integral-eq-hash", a=repr(md1), b=repr(md2))))
+            if bool(I1 == I2) != bool(F1 == F2) or (F1 == F2 and (hash(F1) != hash(F2) or F1.signature() != F2.signature())):
+                self.bad.append(("forms whose integrals are pairwise equal are not equal / differ in hash or signature (metadata key order)", dict(kind="form-md-order", a=repr(md1), b=repr(md2))))
+            # pickling an object must not change any OTHER object: zeros with free indices vs the plain zeros of the same shape
+            from ufl.classes import Zero
+            sh = rng.choice([(), (2,), (2, 2)])
+            plain = [Zero(sh), ufl.as_ufl(0), ufl.zero(*sh) if sh else ufl.zero()]
+            snapz = [(repr(z), hash(z), str(z), z.ufl_free_indices) for z in plain]
+            ii = ufl.Index()
+            zfi = Zero(sh, (ii.count(),), (2,))
+            w = G.coeffs[(2,)][0] if (2,) in G.coeffs else None
+            objs = [zfi] + ([0 * w[ii]] if w is not None else []) + [a]
+            for o in objs:
+                nhist += 1
+                try:
+                    back = pickle.loads(pickle.dumps(o))
+                except Exception as ex:  # noqa
+                    self.bad.append(("pickle round trip raises %s" % type(ex).__name__, dict(kind="pickle", a=repr(o)[:300])))
+                    continue
+                if not back == o or repr(back) != repr(o) or back.ufl_free_indices != o.ufl_free_indices:
+                    self.bad.append(("pickle round trip gives an unequal expression", dict(kind="pickle", a=repr(o)[:300])))
+            plain2 = [Zero(sh), ufl.as_ufl(0), ufl.zero(*sh) if sh else ufl.zero()]
+            if [(repr(z), hash(z), str(z), z.ufl_free_indices) for z in plain] != snapz or [(repr(z), hash(z), str(z), z.ufl_free_indices) for z in plain2] != snapz:
+                self.bad.append(("unpickling a Zero with free indices changed the plain Zero of the same shape", dict(kind="pickle-impure", shape=list(sh))))
+        ev.cov["history_checks"] = nhist
         ev.cov["evaluations"] = pairs_checked
         ev.cov["equal_pairs"] = eq_pairs
         ev.cov["distinct_nontrivial"] = len(distinct)
